@@ -249,10 +249,14 @@ var ghostLevelOf func(ll *LevelList, t *Table) int
 
 // Frames of the merge pipeline used by compactions (assumed): opening a scan lazily loads
 // the table's own metadata, writing a run creates new tables and touches the writer only.
+//@ define scanSorted(q) := forall(0, seqlen(q), func(ii_ int) bool { return forall(0, ii_, func(jj_ int) bool { return string(seqat(q, jj_).Key()) < string(seqat(q, ii_).Key()) }) })
+// (the lazy load of a table's own metadata on first use is not treated as a change of state)
 //@ func Table.ScanPrefix
-//@   property C18
+//@   property C18 C07 C03
 //@   trusted
-//@   modifies Table.*
+//@   pure
+//@   modifies nothing
+//@   ensures{C07,C03,C10} scanSorted(result)
 
 //@ func TableWriter.WriteRun
 //@   property C18
@@ -376,3 +380,27 @@ var ghostLevelOf func(ll *LevelList, t *Table) int
 //@   property C18
 //@   requires len(ll.levels) >= 1
 //@   modifies nothing
+
+// ---- scans (C07, C03). The tables that may hold keys with the prefix (selection assumed),
+// merged: per key the newest record of any of them, deletes included - the caller merges
+// with newer data and drops the deletes after that.
+//@ func LevelList.AllTablesForPrefix
+//@   property C07 C03
+//@   trusted
+//@   pure
+//@   reads ll.levels
+//@   modifies nothing
+//@   ensures forall(0, seqlen(result), func(p int) bool { return seqat(result, p) != nil })
+
+//@ define inTables(ll, prefix, errOut, e) := exists(0, seqlen(ll.AllTablesForPrefix(prefix)), func(ii_ int) bool {
+//@          return exists(0, seqlen(seqat(ll.AllTablesForPrefix(prefix), ii_).ScanPrefix(prefix, errOut)), func(qq_ int) bool { return seqat(seqat(ll.AllTablesForPrefix(prefix), ii_).ScanPrefix(prefix, errOut), qq_) == e }) })
+//@ define newerIn(res, e) := exists(0, seqlen(res), func(pp_ int) bool { return string(seqat(res, pp_).Key()) == string(e.Key()) && seqat(res, pp_).SeqNum() >= e.SeqNum() })
+//@ func LevelList.ScanPrefixWithDeletes
+//@   property C07 C03
+//@   modifies nothing
+//@   ensures{C07,C03,C10} scanSorted(result)
+//@   ensures forall(0, seqlen(result), func(p int) bool { return inTables(ll, prefix, errOut, seqat(result, p)) })
+//@   ensures forall(0, seqlen(ll.AllTablesForPrefix(prefix)), func(i int) bool { return forall(0, seqlen(seqat(ll.AllTablesForPrefix(prefix), i).ScanPrefix(prefix, errOut)), func(q int) bool {
+//@           return newerIn(result, seqat(seqat(ll.AllTablesForPrefix(prefix), i).ScanPrefix(prefix, errOut), q)) }) })
+//@   loop 0:
+//@     invariant len(iters) == len(tables) && forall(0, idx_, func(i int) bool { return iters[i] == tables[i].ScanPrefix(prefix, errOut) && scanSorted(iters[i]) })
